@@ -60,6 +60,9 @@ class Program:
     def __init__(self, mir_text, src_root, features=()):
         self.fns, self.consts, self.order = parse_mir(mir_text)
         self.src_root, self.features = src_root, set(features)
+        # one-line named constants of the crate: `const MAX: usize = const 64_usize;`
+        from .parser import _CONST1_RE, parse_const
+        self.const_values = {m.group(1).strip().split('::')[-1]: parse_const(m.group(2).strip()) for m in _CONST1_RE.finditer(mir_text)}
         # allocN (static: NAME, ...) listings that follow a function body: (position, alloc id) -> static name
         self.static_allocs = [(m.start(), m.group(1), m.group(2)) for m in re.finditer(r'^(alloc\d+) \(static: (.+?), size: ', mir_text, re.M)]
         self.by_type_method = {}     # (Type, method) -> [Fn]
@@ -609,6 +612,12 @@ class Exec:
             m = re.match(r'\{(alloc\d+): &', c[1])
             if m:
                 return self.static_ref(m.group(1))
+            cv = self.prog.const_values.get(c[1].split('::')[-1])
+            if cv is not None and cv[0] != 'path':
+                return self.const(fr, cv)
+            cf = self.prog.consts.get(c[1])
+            if cf and getattr(cf[0], 'kind', '') == 'const' and cf[0].raw_blocks:
+                return self.run_body(cf[0], {})
             # named constant / unit struct / fn item
             return Adt(c[1], None, [])
         if k == 'float':
